@@ -16,4 +16,161 @@ theorem smCtrInc_spec (st : SmSt) (h : st.ctr.length = 16) :
 example : (smCtrInc ⟨[], [], List.replicate 16 255⟩).ctr = List.replicate 16 0 := by decide +kernel
 example : (smCtrInc ⟨[], [], 255 :: 255 :: List.replicate 14 7⟩).ctr = 0 :: 0 :: 8 :: List.replicate 13 7 := by decide +kernel
 
+/-- the parity the code reads from `ctr[0]` is the parity of the whole 128-bit counter; an increment flips it -/
+theorem ctrParity_spec (st : SmSt) (h : st.ctr.length = 16) :
+    ctrParity st = leNat st.ctr % 2 ∧ ctrParity (smCtrInc st) = 1 - ctrParity st := by
+  obtain ⟨h1, h2, _, _⟩ := smCtrInc_spec st h
+  have e2 := ctrParity_eq (smCtrInc st) h2
+  have e1 := ctrParity_eq st h
+  refine ⟨e1, ?_⟩
+  rw [e2, h1, e1]
+  omega
+example : ctrParity ⟨[], [], List.replicate 16 255⟩ = 1 ∧ ctrParity (smCtrInc ⟨[], [], List.replicate 16 255⟩) = 0 := by
+  decide +kernel
+
+/-! ### exact result code / refusal condition of each of the four calls -/
+
+/-- btokSMCmdWrap (state given, output buffer given): ERR_BAD_APDU for an invalid or already protected command and
+for a protected data field that does not fit Lc* (fix-1); otherwise ERR_BAD_LOGIC exactly at an even counter. -/
+theorem cmdWrap_code (C : Cipher) (cmd : Cmd) (st : SmSt) :
+    (smCmdWrap C cmd st).1 =
+      if Bee2V.C08.apduCmdIsValid cmd = false ∨ smBit cmd.cla = true then .badApdu
+      else if cdfStarLen cmd > 65535 then .badApdu
+      else if ctrParity st ≠ 1 then .badLogic else .ok := smCmdWrap_code' C cmd st
+
+theorem cmdWrap_badLogic_iff (C : Cipher) (cmd : Cmd) (st : SmSt) (h : st.ctr.length = 16) :
+    (smCmdWrap C cmd st).1 = .badLogic ↔
+      Bee2V.C08.apduCmdIsValid cmd = true ∧ smBit cmd.cla = false ∧ cdfStarLen cmd ≤ 65535 ∧ leNat st.ctr % 2 = 0 := by
+  rw [smCmdWrap_code', ← ctrParity_eq st h]
+  have := ctrParity_lt st
+  cases Bee2V.C08.apduCmdIsValid cmd <;> cases smBit cmd.cla <;> simp <;>
+    (by_cases h2 : 65535 < cdfStarLen cmd <;> simp [h2] <;> omega)
+example : (smCmdWrap ⟨fun _ x => x, fun _ x => x⟩ ⟨0, 1, 2, 3, [7], 0⟩ ⟨[], [], List.replicate 16 0⟩).1 = .badLogic := by
+  decide +kernel
+
+/-- a refused wrap returns no octets -/
+theorem cmdWrap_refused_empty (C : Cipher) (cmd : Cmd) (st : SmSt) (h : (smCmdWrap C cmd st).1 ≠ .ok) :
+    (smCmdWrap C cmd st).2 = [] := by
+  unfold smCmdWrap at h ⊢
+  cases hp : smCmdWrapPre cmd with
+  | some e => simp [hp]
+  | none =>
+    simp only [hp] at h ⊢
+    by_cases h3 : ctrParity st ≠ Bee2V.Gen.C17Src.parCmdWrap
+    · simp [h3]
+    · simp [h3] at h
+
+/-- btokSMCmdUnwrap: the structure checks first; then ERR_BAD_LOGIC exactly at an even counter; then the MAC -/
+theorem cmdUnwrap_code (C : Cipher) (apdu : Bytes) (st : SmSt) :
+    (smCmdUnwrap C apdu st).1 =
+      match smCmdParse apdu with
+      | .error e => e
+      | .ok p =>
+        if ctrParity st ≠ 1 then .badLogic
+        else if mac2V C st.key1 (apdu.take 4) ((apdu.drop (4 + p.lcLen)).take (p.c1 + p.c2)) ((apdu.drop p.macOff).take 8) = false
+          then .badMac
+        else match apdu.take 4 with
+          | [_, _, _, _] => .ok
+          | _ => .badApdu := smCmdUnwrap_code' C apdu st
+
+theorem cmdUnwrap_badLogic_iff (C : Cipher) (apdu : Bytes) (st : SmSt) (h : st.ctr.length = 16) :
+    (smCmdUnwrap C apdu st).1 = .badLogic ↔ (∃ p, smCmdParse apdu = .ok p) ∧ leNat st.ctr % 2 = 0 := by
+  rw [smCmdUnwrap_code', ← ctrParity_eq st h]
+  have := ctrParity_lt st
+  cases hp : smCmdParse apdu with
+  | error e =>
+    have := smCmdParse_err hp
+    simp only [reduceCtorEq, exists_false, false_and, iff_false]
+    rcases this with rfl | rfl <;> simp
+  | ok p =>
+    simp only [Except.ok.injEq, exists_eq', true_and]
+    by_cases h3 : ctrParity st ≠ 1
+    · simp only [if_pos h3, true_iff]; omega
+    · simp only [if_neg h3]
+      have : ctrParity st ≠ 0 := by omega
+      simp only [this, iff_false]
+      split
+      · simp
+      · split <;> simp
+
+example : (smCmdUnwrapFmt [4, 1, 2, 3, 10, 0x8E, 8, 0, 0, 0, 0, 0, 0, 0, 0]).1 = .ok := by decide +kernel
+
+/-- btokSMRespWrap: ERR_BAD_APDU for rdf_len > 65536; otherwise ERR_BAD_LOGIC exactly at an odd counter -/
+theorem respWrap_code (C : Cipher) (resp : Resp) (st : SmSt) :
+    (smRespWrap C resp st).1 =
+      if resp.rdf.length > 65536 then .badApdu else if ctrParity st ≠ 0 then .badLogic else .ok :=
+  smRespWrap_code' C resp st
+
+theorem respWrap_badLogic_iff (C : Cipher) (resp : Resp) (st : SmSt) (h : st.ctr.length = 16) :
+    (smRespWrap C resp st).1 = .badLogic ↔ resp.rdf.length ≤ 65536 ∧ leNat st.ctr % 2 = 1 := by
+  rw [smRespWrap_code', ← ctrParity_eq st h]
+  have := ctrParity_lt st
+  by_cases h1 : resp.rdf.length > 65536
+  · simp only [if_pos h1, reduceCtorEq, false_iff]; omega
+  · simp only [if_neg h1]
+    by_cases h3 : ctrParity st ≠ 0
+    · simp only [if_pos h3, true_iff]; omega
+    · simp only [if_neg h3, reduceCtorEq, false_iff]; omega
+example : (smRespWrap ⟨fun _ x => x, fun _ x => x⟩ ⟨0x90, 0, [7]⟩ ⟨[], [], 1 :: List.replicate 15 0⟩).1 = .badLogic := by
+  decide +kernel
+
+/-- btokSMRespUnwrap: the structure checks first; then ERR_BAD_LOGIC exactly at an odd counter; then the MAC -/
+theorem respUnwrap_code (C : Cipher) (apdu : Bytes) (st : SmSt) :
+    (smRespUnwrap C apdu st).1 =
+      match smRespParse apdu with
+      | .error e => e
+      | .ok p =>
+        if ctrParity st ≠ 0 then .badLogic
+        else if mac2V C st.key1 (apdu.take p.c1) (apdu.drop (apdu.length - 2)) ((apdu.drop p.macOff).take 8) = false then .badMac
+        else match apdu.drop (apdu.length - 2) with
+          | [_, _] => .ok
+          | _ => .badApdu := smRespUnwrap_code' C apdu st
+
+theorem respUnwrap_badLogic_iff (C : Cipher) (apdu : Bytes) (st : SmSt) (h : st.ctr.length = 16) :
+    (smRespUnwrap C apdu st).1 = .badLogic ↔ (∃ p, smRespParse apdu = .ok p) ∧ leNat st.ctr % 2 = 1 := by
+  rw [smRespUnwrap_code', ← ctrParity_eq st h]
+  have := ctrParity_lt st
+  cases hp : smRespParse apdu with
+  | error e =>
+    have := smRespParse_err hp
+    simp only [reduceCtorEq, exists_false, false_and, iff_false]
+    rcases this with rfl | rfl <;> simp
+  | ok p =>
+    simp only [Except.ok.injEq, exists_eq', true_and]
+    by_cases h3 : ctrParity st ≠ 0
+    · simp only [if_pos h3, true_iff]; omega
+    · simp only [if_neg h3]
+      have : ctrParity st ≠ 1 := by omega
+      simp only [this, iff_false]
+      split
+      · simp
+      · split <;> simp
+example : (smRespUnwrapFmt [0x8E, 8, 0, 0, 0, 0, 0, 0, 0, 0, 0x90, 0]).1 = .ok := by decide +kernel
+
+/-- a refused unwrap returns nothing -/
+theorem unwrap_refused_none (C : Cipher) (apdu : Bytes) (st : SmSt) :
+    ((smCmdUnwrap C apdu st).1 ≠ .ok → (smCmdUnwrap C apdu st).2 = none) ∧
+    ((smRespUnwrap C apdu st).1 ≠ .ok → (smRespUnwrap C apdu st).2 = none) := by
+  constructor
+  · unfold smCmdUnwrap
+    cases smCmdParse apdu with
+    | error e => simp
+    | ok p =>
+      dsimp only
+      split
+      · simp
+      · split
+        · simp
+        · split <;> simp
+  · unfold smRespUnwrap
+    cases smRespParse apdu with
+    | error e => simp
+    | ok p =>
+      dsimp only
+      split
+      · simp
+      · split
+        · simp
+        · split <;> simp
+
 end Bee2V.C17
